@@ -100,15 +100,20 @@ JudgeNotif(r, disk, s2, e) ==
   IF BadRanges(r, disk, s2.buf, e.pubs) = {} THEN <<>>
   ELSE <<V(r.id, "violation", "", "WellFormed: published diagnostic range outside its document after " \o e.k \o " " \o e.f)>>
 
-RECURSIVE Run(_, _, _, _, _)
-Run(r, disk, i, s, acc) ==
-  IF i > Len(r.events) THEN [s |-> s, acc |-> acc]
-  ELSE LET e  == r.events[i]
-           s2 == Step1(r, disk, s, e)
+(* A "disk" event: another program rewrote a file (e.t = its new text).  The server is not told: until the next didOpen /   *)
+(* didChange / didClose (each of which makes it read buffers and disk again) its answers may be those of the old disk, so the  *)
+(* comparison with the fresh server is not demanded in between (sync = FALSE); Total and WellFormed are.                        *)
+RECURSIVE Run(_, _, _, _, _, _)
+Run(r, disk, sync, i, s, acc) ==
+  IF i > Len(r.events) THEN [s |-> s, acc |-> acc, sync |-> sync]
+  ELSE LET e  == r.events[i] IN
+       IF e.k = "disk" THEN Run(r, [disk EXCEPT ![e.f] = e.t], FALSE, i + 1, s, acc)
+       ELSE
+       LET s2 == Step1(r, disk, s, e)
            j  == IF ~s.alive THEN <<V(r.id, "violation", "", "event recorded after the server died")>>
-                 ELSE IF e.k = "req" THEN JudgeReq(r, disk, s, e)
+                 ELSE IF e.k = "req" THEN JudgeReq(r, disk, s, IF sync THEN e ELSE [e EXCEPT !.hasFresh = FALSE])
                  ELSE IF e.k \in {"open", "change"} THEN JudgeNotif(r, disk, s2, e) ELSE <<>>
-       IN Run(r, disk, i + 1, s2, acc \o j)
+       IN Run(r, disk, sync \/ (e.k \in {"open", "change", "close"} /\ ~(e.k = "change" /\ e.nch = 0)), i + 1, s2, acc \o j)
 
 Shown(sq) == [f \in {sq[i].f : i \in 1..Len(sq)} |-> sq[CHOOSE i \in 1..Len(sq) : sq[i].f = f].d]
 JudgeShown(r, s) ==
@@ -125,8 +130,8 @@ JudgeShown(r, s) ==
 
 Judge(r) == LET disk == DiskOf(r)
                 b0 == [f \in DOMAIN disk |-> NoText]
-                res == Run(r, disk, 1, S0(disk, OkNow(r, disk, b0), MainNow(r, disk, b0)), <<>>) IN
-            res.acc \o JudgeShown(r, res.s)
+                res == Run(r, disk, TRUE, 1, S0(disk, OkNow(r, disk, b0), MainNow(r, disk, b0)), <<>>) IN
+            res.acc \o (IF res.sync THEN JudgeShown(r, res.s) ELSE <<>>)
 
 Init == l = 1 /\ bad = <<>>
 Step == l <= Len(Rec) /\ bad' = bad \o Judge(Rec[l]) /\ l' = l + 1
